@@ -2,7 +2,7 @@
    // comments).  Model: Model/Layout.v (the repaired tokenizer, Token.end / is_connected,
    CustomOrder).  Only statements, closed by `exact`, each followed by Print Assumptions. *)
 From Coq Require Import ZArith String List Bool Ascii.
-From JMCV Require Import Model.Layout Proofs.LayoutBasic Proofs.LayoutAdj Proofs.LayoutAdj2 Proofs.LayoutSim Proofs.LayoutSim2 Proofs.LayoutDeep.
+From JMCV Require Import Model.Layout Proofs.LayoutBasic Proofs.LayoutAdj Proofs.LayoutAdj2 Proofs.LayoutSim Proofs.LayoutSim2 Proofs.LayoutDeep Proofs.LayoutGlue.
 Import ListNotations.
 Open Scope Z_scope.
 
@@ -57,6 +57,37 @@ Theorem C15_layout :
       map (shape_of [] cf fuel) sts = map (shape_of [] cf fuel) sts'.
 Proof. exact relayout_deep. Qed.
 Print Assumptions C15_layout.
+
+(* C15_glued_comment (strengthening round 1).  `relayout` asks for a whitespace character in front of every `//`.
+   A comment written DIRECTLY behind a token (`tp @s ~ ~1// up`, `$a +// c`, `execute as @a// everyone`) is covered
+   by this theorem: at any place p of any tokenizer run (any macro table, mode, start position) where the state is
+   "between tokens or inside a bare word / operator" (no string literal, bracket or comment open) and the last
+   character was not `/`, the glued comment `// body NL` gives EXACTLY the result - the same token streams with the
+   same positions, or the same diagnostic - as the comment written after one blank or tab, which `relayout` covers.
+   It applies to every run of the tokenizer, hence also to the content of a bracket when that is re-tokenised. *)
+Theorem C15_glued_comment :
+  forall mt cf es allow_last allow_sc line col p c body rest st,
+    parse_st mt cf es allow_sc line col p = Ok st ->
+    (s_kind st = SNone \/ s_kind st = SKeyword \/ s_kind st = SOperator) -> s_slash st = false ->
+    (c = SP \/ c = TAB) -> Forall (fun x => x <> NL) body ->
+    parse mt cf es allow_last allow_sc line col (p ++ c :: SLASH :: SLASH :: body ++ NL :: rest) =
+    parse mt cf es allow_last allow_sc line col (p ++ SLASH :: SLASH :: body ++ NL :: rest).
+Proof. exact glued_comment. Qed.
+Print Assumptions C15_glued_comment.
+
+(* Non-vacuity: the witness of the defect this theorem is about - `~1` is a pending bare word, the last character
+   is not `/`; the glued and the spaced comment give the same three-token statement `tp @s ~ ~1 ~`. *)
+Example C15_glued_comment_nonvacuous :
+  match parse_st [] false true false 1 1 (s2l "tp @s ~ ~1") with
+  | Ok st => match s_kind st with SKeyword => negb (s_slash st) | _ => false end
+  | Err _ => false
+  end = true /\
+  match parse [] false true false false 1 1 (s2l "tp @s ~ ~1// up
+~;") with
+  | Ok [toks] => if list_eq_dec string_dec (map (fun t => l2s (t_str t)) toks) ["tp"; "@s"; "~"; "~1"; "~"]%string then true else false
+  | _ => false
+  end = true.
+Proof. split; vm_compute; reflexivity. Qed.
 
 (* relayout is symmetric, so C15_flat also gives: s' accepted (in scope) -> s accepted. *)
 Theorem C15_relayout_sym : forall m s s', relayout m s s' -> relayout m s' s.
